@@ -36,3 +36,35 @@ pub fn take_path_flags() -> (bool, bool) {
 /// the check interval to 1 and leaves the caller's limits in force.
 pub fn set_fire_at(v: Option<(usize, u8)>) { FIRE_AT.with(|c| c.set(v)); }
 pub fn fire_at() -> Option<(usize, u8)> { FIRE_AT.with(|c| c.get()) }
+
+// H8: recorder for the specialised Sudoku solver (`solvers/sudoku.rs`). Off by default; while
+// switched on it collects, in program order, `(kind, row, col, digit)` for every posted
+// `cell == digit` (kind 0 = naked single, 1/2/3 = hidden single in a row/column/box) and every
+// candidate removed by the naked-pairs pass (kind 4/5/6 = row/column/box).
+// `sudoku_solve_status` notes what the general solver answered inside `SudokuSolver::solve`
+// (0 = Ok, 1 = Err(NoSolution), 2 = Err(Timeout), 3 = Err(MemoryLimit),
+// 4 = Err(ConflictingConstraints), 5 = any other Err), which `solve` itself collapses to `None`.
+thread_local! {
+    static SUDOKU_EVENTS: std::cell::RefCell<Option<Vec<(u8, usize, usize, i32)>>> = const { std::cell::RefCell::new(None) };
+    static SUDOKU_STATUS: Cell<Option<u8>> = const { Cell::new(None) };
+}
+pub fn sudoku_solve_status(r: &crate::core::SolverResult<crate::core::Solution>) {
+    use crate::core::SolverError as E;
+    let s = match r {
+        Ok(_) => 0,
+        Err(E::NoSolution { .. }) => 1,
+        Err(E::Timeout { .. }) => 2,
+        Err(E::MemoryLimit { .. }) => 3,
+        Err(E::ConflictingConstraints { .. }) => 4,
+        Err(_) => 5,
+    };
+    SUDOKU_STATUS.with(|c| c.set(Some(s)));
+}
+pub fn sudoku_take_status() -> Option<u8> { SUDOKU_STATUS.with(|c| c.replace(None)) }
+pub fn sudoku_record_start() { SUDOKU_EVENTS.with(|c| *c.borrow_mut() = Some(Vec::new())); }
+pub fn sudoku_event(kind: u8, row: usize, col: usize, digit: i32) {
+    SUDOKU_EVENTS.with(|c| if let Some(v) = c.borrow_mut().as_mut() { v.push((kind, row, col, digit)); });
+}
+pub fn sudoku_record_take() -> Vec<(u8, usize, usize, i32)> {
+    SUDOKU_EVENTS.with(|c| c.borrow_mut().take().unwrap_or_default())
+}
